@@ -250,6 +250,50 @@ def shard_e1(shard):
     return st.result([drv])
 
 
+PATHALPHA = [b'e', b'x', b'n', b'|', b'=', b"'", b'\\', b'0', b't']
+
+
+def dq_literal(b):
+    return b'"' + b.replace(b'\\', b'\\\\').replace(b'"', b'\\"') + b'"'
+
+
+def shard_pathnames(shard):
+    """the parser looks every option name up through the by-path machinery: a quoted name may be any path string"""
+    firsts, L, deadline = shard
+    drv = get_driver('asan')
+    drv.define_schema('KS', KS.spec())
+    st = ShardStats('quoted option names that are path strings')
+    buf = []
+
+    def flush():
+        cases = [robust_case('KS', fl, t, None, quiet=True) for (fl, t) in buf]
+        for c, r in zip(cases, drv.run(cases)):
+            judge_robust(st, 'KS', c, r, None)
+            st.transitions += 1
+        del buf[:]
+    for first in firsts:
+        for n in range(0, L):
+            for tail in itertools.product(PATHALPHA, repeat=n):
+                name = dq_literal(first + b''.join(tail))
+                for fl in (0, CFGF['IGNORE_UNKNOWN']):
+                    buf.append((fl, name + b' = 1'))
+                    buf.append((fl, b'e t { } e u { } ' + name + b' { }'))
+                    buf.append((fl, b'e t { ' + name + b' += {1} }'))
+            if len(buf) >= 600:
+                flush()
+                if time.time() > deadline:
+                    st.complete = False
+                    break
+        if not st.complete:
+            break
+    if buf:
+        flush()
+    st.nontriv(b''.join(firsts).decode('latin-1'))
+    if not st.samples:
+        st.samples.append({'first_symbols': [f.decode('latin-1') for f in firsts], 'max_length': L, 'forms': ['NAME = 1', 'e t { } e u { } NAME { }', 'e t { NAME += {1} }']})
+    return st.result([drv])
+
+
 def shapes(nmax):
     sizes = [n for n in (1, 2, 10, 100, 1000, 10000, 100000) if n <= nmax]
     bounds = [31, 32, 33, 63, 64, 65, 8191, 8192, 8193, 16383, 16384, 16385]
@@ -448,6 +492,9 @@ def main():
                 for ch in engine.chunks(frontier, 6):
                     shards.append((sid, fl, n, ch, dl))
         engine.phase(ck, 'E1 token sequences N=%d' % n, shard_e1, shards, schemas=len(S.family_F()), flagsets=len(FLAGSETS))
+    Lp = 5 if quick else 7
+    engine.phase(ck, 'quoted option names that are path strings of length <= %d (every name is looked up through the path machinery)' % Lp, shard_pathnames,
+                 [([a + b], Lp - 1, dl) for a in PATHALPHA for b in PATHALPHA] + [([a], 1, dl) for a in PATHALPHA], alphabet=len(PATHALPHA))
     buf_strings(4)      # the largest product of the quick tier last
     if not quick:
         # MemorySanitizer pass (uninitialised reads): short byte strings, shapes up to 10^3, under clang -fsanitize=memory
